@@ -69,3 +69,72 @@ Example exact_solution_accepted : is_solved 0 1 = true.
 Proof. unfold is_solved. destruct (Rle_dec _ _) as [H|H]; [reflexivity|exfalso; apply H; lra]. Qed.
 Example loose_solution_rejected : is_solved (/ 100000000) 1 = false.
 Proof. unfold is_solved. destruct (Rle_dec _ _) as [H|H]; [exfalso; lra|reflexivity]. Qed.
+
+(* ---------------- from the residual test to the ERROR of a stored level (max norm) ----------------
+   The step matrices are M-matrices with unit row sums except at the frac face (MinPrinciple.Sys: rows 1..n, Dirichlet value g
+   at node 0, mirror at node n+1), so their inverses do not amplify in the max norm: a level V whose residual against the step
+   system is rho (V solves the system with right-hand side B + rho) differs from the exact update U by at most max |rho|.
+   With the regenerated test (largest entries since 3794250): an accepted iterate is within 1e-9 max|b| of the exact update -
+   "linear-solver error never competes with discretisation error". *)
+From BBLib Require MinPrinciple.
+
+Theorem C04_residual_bounds_the_error_of_a_stored_level :
+  forall n (K B U V rho : nat -> R) g eps, (1 <= n)%nat ->
+    (forall j, (1 <= j <= n)%nat -> 0 <= K j) ->
+    MinPrinciple.Sys n K B U g ->
+    MinPrinciple.Sys n K (fun j => B j + rho j) V g ->
+    (forall j, (1 <= j <= n)%nat -> Rabs (rho j) <= eps) ->
+    forall j, (j <= S n)%nat -> Rabs (U j - V j) <= eps.
+Proof.
+  intros n K B U V rho g eps Hn HK [U0 [Um Ur]] [V0 [Vm Vr]] Hrho j Hj.
+  assert (Heps : 0 <= eps).
+  { eapply Rle_trans; [apply Rabs_pos|apply (Hrho 1%nat)]. lia. }
+  assert (SD : MinPrinciple.Sys n K (fun i => - rho i) (fun i => U i - V i) 0).
+  { split; [lra|]. split; [lra|]. intros i Hi. specialize (Ur i Hi). specialize (Vr i Hi).
+    unfold MinPrinciple.Row in *. lra. }
+  assert (Hb : forall i, (1 <= i <= n)%nat -> - eps <= - rho i <= eps).
+  { intros i Hi. specialize (Hrho i Hi). unfold Rabs in Hrho. destruct (Rcase_abs (rho i)); lra. }
+  pose proof (MinPrinciple.step_lower n Hn K (fun i => - rho i) (fun i => U i - V i) 0 HK SD (- eps) ltac:(lra)
+                ltac:(intros i Hi; apply Hb, Hi) j Hj) as L.
+  pose proof (MinPrinciple.step_upper n K (fun i => - rho i) (fun i => U i - V i) 0 eps Hn HK SD ltac:(lra)
+                ltac:(intros i Hi; apply Hb, Hi) j Hj) as Up.
+  cbn beta in L, Up. unfold Rabs. destruct (Rcase_abs (U j - V j)); lra.
+Qed.
+Print Assumptions C04_residual_bounds_the_error_of_a_stored_level.
+
+Theorem C04_accepted_iterate_is_close_to_the_exact_update :
+  forall n (K B U V rho : nat -> R) g res_norm b_norm, (1 <= n)%nat -> 0 <= b_norm ->
+    (forall j, (1 <= j <= n)%nat -> 0 <= K j) ->
+    MinPrinciple.Sys n K B U g ->
+    MinPrinciple.Sys n K (fun j => B j + rho j) V g ->
+    (forall j, (1 <= j <= n)%nat -> Rabs (rho j) <= res_norm) ->        (* res_norm = max |A V - b| *)
+    is_solved res_norm b_norm = true ->                                   (* the code's test passed *)
+    forall j, (j <= S n)%nat -> Rabs (U j - V j) <= / 1000000000 * b_norm.
+Proof.
+  intros n K B U V rho g res_norm b_norm Hn Hb HK SU SV Hrho Hacc j Hj.
+  apply C04_accepted_residual_is_relative_and_small in Hacc; [|exact Hb].
+  apply (C04_residual_bounds_the_error_of_a_stored_level n K B U V rho g (/ 1000000000 * b_norm) Hn HK SU SV); [|exact Hj].
+  intros i Hi. eapply Rle_trans; [apply Hrho, Hi|exact Hacc].
+Qed.
+Print Assumptions C04_accepted_iterate_is_close_to_the_exact_update.
+
+(* C01's "up to rounding-level error of the linear solve", for what the loop accepts: the exact update lies between the smallest and
+   the largest of (frac-face value, previous level's entries) - the discrete maximum principle - and the accepted iterate is within
+   1e-9 max|b| of it at every node *)
+Theorem C01_accepted_iterate_obeys_the_maximum_principle_up_to_the_accepted_residual :
+  forall n (K B U V rho : nat -> R) g lo hi res_norm b_norm, (1 <= n)%nat -> 0 <= b_norm ->
+    (forall j, (1 <= j <= n)%nat -> 0 <= K j) ->
+    MinPrinciple.Sys n K B U g ->
+    MinPrinciple.Sys n K (fun j => B j + rho j) V g ->
+    (forall j, (1 <= j <= n)%nat -> Rabs (rho j) <= res_norm) ->
+    is_solved res_norm b_norm = true ->
+    lo <= g <= hi -> (forall j, (1 <= j <= n)%nat -> lo <= B j <= hi) ->
+    forall j, (j <= S n)%nat -> lo - / 1000000000 * b_norm <= V j <= hi + / 1000000000 * b_norm.
+Proof.
+  intros n K B U V rho g lo hi res_norm b_norm Hn Hb HK SU SV Hrho Hacc Hg HB j Hj.
+  pose proof (C04_accepted_iterate_is_close_to_the_exact_update n K B U V rho g res_norm b_norm Hn Hb HK SU SV Hrho Hacc j Hj) as Hd.
+  pose proof (MinPrinciple.step_lower n Hn K B U g HK SU lo ltac:(lra) ltac:(intros i Hi; apply HB, Hi) j Hj) as L.
+  pose proof (MinPrinciple.step_upper n K B U g hi Hn HK SU ltac:(lra) ltac:(intros i Hi; apply HB, Hi) j Hj) as Up.
+  unfold Rabs in Hd. destruct (Rcase_abs (U j - V j)); lra.
+Qed.
+Print Assumptions C01_accepted_iterate_obeys_the_maximum_principle_up_to_the_accepted_residual.
